@@ -62,6 +62,17 @@ def run(c):
         elif not model_ok:
             c.violation({'property': 'C08', 'kind': 'proof obligation no longer checks', 'failures': ob['failures'],
                          'log': ob['log']}, found_input=False)
+    # the start bit and alignment every generated serialisation function passes to the macros (static in-byte
+    # offsets of the operation builder): real `_OpBuilder` vs the Lean builder, many layouts, nothing compiled
+    from checks import lycommon as ly
+    bad = ly.op_tree_sweep(c, 300 if c.tier == 'thorough' else 60)
+    if bad and not c.violations:
+        cs, (qq, exp, got, lab) = bad
+        if not ly.hunt_layout_failure(c, cs, 'C08'):
+            c.violation({'property': 'C08', 'kind': f'correspondence broken ({lab}): the operation tree (alignments, static start '
+                         'bits of bit-field writes) differs from the Lean builder, and no value that decodes wrongly was found',
+                         'obligation': f'H-layout {lab} stream', 'config_yaml': cs.text, 'query': qq,
+                         'implementation': exp, 'model': got}, found_input=False)
     if c.tier == 'thorough' and ob['ok']:
         ok, log = c.leanchecker(['BVM.Props.C08'])
         if not ok:
